@@ -329,6 +329,7 @@ def check(pid, tier, seed, replay_only=None):
                              solver="cadical")
             results = {r["harness_id"]: r for r in res.get("verification_results", {}).get("results", [])}
             stats = {c["harness_id"]: (c.get("cbmc_stats") or {}) for c in res.get("cbmc", [])}
+            pending = []
             for h in hs:
                 r = results.get(h["name"])
                 rec = classify(unit, h, r, workdir)
@@ -358,18 +359,38 @@ def check(pid, tier, seed, replay_only=None):
                     else:
                         unlisted.append(v)
                 if unlisted:
-                    v = unlisted[0]
-                    v["siblings"] = [x["label"] for x in unlisted]
-                    rp = replay_violation(unit, workdir, crate_dir, h, v, pid, tmo, mem)
+                    pending.append((h, rec, unlisted))
+            # replay phase: cheapest violating harness first; one natively confirmed counterexample is
+            # enough for the VIOLATION verdict, the other violating harnesses are listed unreplayed
+            pending.sort(key=lambda t: t[1].get("wall_s", 0))
+            confirmed = False
+            tries = 0
+            for (h, rec, unlisted) in pending:
+                v = unlisted[0]
+                v["siblings"] = [x["label"] for x in unlisted]
+                if (confirmed or tries >= 3) and not os.environ.get("VERIF_REPLAY_ALL"):
                     for x in unlisted:
-                        x["replay"] = dict(path=rp.get("path"), reproduced=rp.get("reproduced"), not_replayable=rp.get("not_replayable"))
-                    if rp.get("reproduced") or rp.get("not_replayable"):
-                        n_viol += 1
-                        lines.append("VIOLATION property=%s replay=%s" % (pid, rp["path"]))
-                    else:
-                        rec["inconclusive"].append("counterexample for %s did not reproduce natively (model or stub suspect); see %s" % (
-                            ",".join(v["siblings"]), rp.get("path")))
+                        x["replay"] = dict(skipped="another counterexample of this property was already confirmed natively" if confirmed else "replay budget exhausted")
+                    if not confirmed:
+                        rec["inconclusive"].append("counterexample for %s not replayed (budget)" % ",".join(v["siblings"]))
                         rec["status"] = "inconclusive"
+                    continue
+                tries += 1
+                rp = replay_violation(unit, workdir, crate_dir, h, v, pid, tmo, mem)
+                for x in unlisted:
+                    x["replay"] = dict(path=rp.get("path"), reproduced=rp.get("reproduced"), not_replayable=rp.get("not_replayable"))
+                if rp.get("reproduced") or rp.get("not_replayable"):
+                    confirmed = True
+                    n_viol += 1
+                    lines.append("VIOLATION property=%s replay=%s" % (pid, rp["path"]))
+                else:
+                    rec["inconclusive"].append("counterexample for %s did not reproduce natively (model or stub suspect); see %s" % (
+                        ",".join(v["siblings"]), rp.get("path")))
+                    rec["status"] = "inconclusive"
+            if confirmed:
+                # unreplayed siblings of a confirmed violation do not make the run inconclusive
+                for (h, rec, unlisted) in pending:
+                    rec["inconclusive"] = [i for i in rec["inconclusive"] if "did not reproduce" not in i and "not replayed" not in i] if rec["status"] != "inconclusive" else rec["inconclusive"]
         finally:
             if not os.environ.get("VERIF_KEEP_WORK"):
                 shutil.rmtree(workdir, ignore_errors=True)
